@@ -138,6 +138,7 @@ type mEntry struct {
 
 type mProd struct {
 	name      string
+	host      string
 	port      int // remote port (identity of the connection)
 	http      int
 	tcp       int
@@ -155,6 +156,10 @@ type lmodel struct {
 type LHistCfg struct {
 	Prods int  `json:"prods"`
 	Trace bool `json:"trace,omitempty"`
+	// SameAddr: the second connection identifies as the SAME nsqd as the first (same
+	// broadcast address and ports) - an nsqd that reconnected while its old connection is
+	// still open. Registrations belong to connections, so both are listed until each goes.
+	SameAddr bool `json:"sameaddr,omitempty"`
 }
 
 type lhist struct {
@@ -222,13 +227,17 @@ func (h *lhist) Apply(ev string) {
 		pr := m.prods[n]
 		if pr == nil {
 			idx := int(n[1] - '0')
-			pr = &mProd{name: n, http: 4150 + idx, tcp: 4160 + idx}
+			host := "host-" + n
+			if h.cfg.SameAddr {
+				idx, host = 1, "host-p1"
+			}
+			pr = &mProd{name: n, host: host, http: 4150 + idx, tcp: 4160 + idx}
 			m.prods[n] = pr
 		}
 		pr.gen++
 		pr.port = 20000 + int(n[1]-'0')*100 + pr.gen
 		pr.conn = h.w.Dial(pr.port)
-		body, _ := json.Marshal(map[string]interface{}{"broadcast_address": "host-" + n, "hostname": "host-" + n, "tcp_port": pr.tcp, "http_port": pr.http, "version": "1.0"})
+		body, _ := json.Marshal(map[string]interface{}{"broadcast_address": pr.host, "hostname": pr.host, "tcp_port": pr.tcp, "http_port": pr.http, "version": "1.0"})
 		pr.conn.Cmd("IDENTIFY", body)
 		h.wq()
 		rs := pr.conn.Responses()
@@ -326,12 +335,19 @@ func (h *lhist) Apply(ev string) {
 		}
 		delete(m.keys, k)
 	case "tomb":
-		pr := m.prods[p[2]]
 		node := "host-" + p[2] + ":415" + p[2][1:]
+		if h.cfg.SameAddr {
+			node = "host-p1:4151"
+		}
 		if code, _ := h.w.Do("POST", "/topic/tombstone?topic="+p[1]+"&node="+node); code != 200 {
 			h.bad("C14 admin call failed", "%s: %d", ev, code)
 		}
-		if pr != nil {
+		// the tombstone names a node (address:http-port): every connection that identified
+		// as that node and registered the topic is hidden
+		for _, pr := range m.prods {
+			if fmt.Sprintf("%s:%d", pr.host, pr.http) != node {
+				continue
+			}
 			if e := m.keys[mReg{"topic", p[1], ""}]; e != nil && e[pr.name] != nil {
 				e[pr.name].tombAt = now
 			}
@@ -424,7 +440,8 @@ func (h *lhist) compare() {
 			h.bad("C14 /lookup of a known topic failed", "topic %s: status %d", t, code)
 			continue
 		}
-		wp := map[string]bool{}
+		// (multisets: one entry per registered connection)
+		var wp, gp []string
 		for n, ent := range e {
 			p := m.prods[n]
 			if !h.active(p, now) {
@@ -433,14 +450,15 @@ func (h *lhist) compare() {
 			if ent.tombAt != 0 && now-ent.tombAt < int64(lkTomb) {
 				continue
 			}
-			wp[fmt.Sprintf("host-%s:%d", n, p.http)] = true
+			wp = append(wp, fmt.Sprintf("%s:%d", p.host, p.http))
 		}
-		gp := map[string]bool{}
 		for _, p := range doc.Producers {
-			gp[fmt.Sprintf("%s:%d", p.BroadcastAddress, p.HTTPPort)] = true
+			gp = append(gp, fmt.Sprintf("%s:%d", p.BroadcastAddress, p.HTTPPort))
 		}
-		if fmt.Sprint(sortedKeys(gp)) != fmt.Sprint(sortedKeys(wp)) || len(gp) != len(doc.Producers) {
-			h.bad("C14 /lookup producers differ from the registry model", "topic %s: got %v, model %v", t, sortedKeys(gp), sortedKeys(wp))
+		sort.Strings(wp)
+		sort.Strings(gp)
+		if fmt.Sprint(gp) != fmt.Sprint(wp) {
+			h.bad("C14 /lookup producers differ from the registry model", "topic %s: got %v, model %v", t, gp, wp)
 		}
 		if got := asSet(doc.Channels); fmt.Sprint(sortedKeys(got)) != fmt.Sprint(sortedKeys(wc)) {
 			h.bad("C14 /lookup channels differ from the registry model", "topic %s: got %v, model %v", t, doc.Channels, sortedKeys(wc))
@@ -448,7 +466,7 @@ func (h *lhist) compare() {
 	}
 	// /nodes: connected, recently pinged producers with their topics and tombstone flags
 	get("/nodes")
-	wn := map[string]bool{}
+	var wn, gn []string
 	for n, p := range m.prods {
 		if !h.active(p, now) || m.keys[mReg{"client", "", ""}][n] == nil {
 			continue
@@ -461,9 +479,8 @@ func (h *lhist) compare() {
 			}
 		}
 		sort.Strings(ts)
-		wn[fmt.Sprintf("host-%s:%d %v", n, p.http, ts)] = true
+		wn = append(wn, fmt.Sprintf("%s:%d %v", p.host, p.http, ts))
 	}
-	gn := map[string]bool{}
 	for _, p := range doc.Producers {
 		var ts []string
 		for i, t := range p.Topics {
@@ -474,10 +491,12 @@ func (h *lhist) compare() {
 			ts = append(ts, fmt.Sprintf("%s/%v", t, tomb))
 		}
 		sort.Strings(ts)
-		gn[fmt.Sprintf("%s:%d %v", p.BroadcastAddress, p.HTTPPort, ts)] = true
+		gn = append(gn, fmt.Sprintf("%s:%d %v", p.BroadcastAddress, p.HTTPPort, ts))
 	}
-	if fmt.Sprint(sortedKeys(gn)) != fmt.Sprint(sortedKeys(wn)) {
-		h.bad("C14 /nodes differs from the registry model", "got %v, model %v", sortedKeys(gn), sortedKeys(wn))
+	sort.Strings(wn)
+	sort.Strings(gn)
+	if fmt.Sprint(gn) != fmt.Sprint(wn) {
+		h.bad("C14 /nodes differs from the registry model", "got %v, model %v", gn, wn)
 	}
 }
 
